@@ -9,6 +9,7 @@ from warnings import warn
 import contextlib
 import json
 import numbers
+import re
 
 from jsonschema import (
     _legacy_validators,
@@ -40,6 +41,8 @@ class _DontDoThat(Exception):
 
 validators = {}
 meta_schemas = _utils.URIDict()
+
+_ARRAY_INDEX = re.compile(r"^(0|[1-9][0-9]*)\Z")
 
 
 def _generate_legacy_type_checks(types=()):
@@ -782,19 +785,25 @@ class RefResolver(object):
                 a URI fragment to resolve within it
         """
 
-        fragment = fragment.lstrip(u"/")
-        parts = unquote(fragment).split(u"/") if fragment else []
+        pointer = unquote(fragment)
+        if pointer.startswith(u"/"):
+            pointer = pointer[1:]
+            parts = pointer.split(u"/")
+        else:
+            parts = pointer.split(u"/") if pointer else []
 
         for part in parts:
             part = part.replace(u"~1", u"/").replace(u"~0", u"~")
 
-            if isinstance(document, Sequence):
-                # Array indexes should be turned into integers
-                try:
-                    part = int(part)
-                except ValueError:
-                    pass
             try:
+                if isinstance(document, str):
+                    # a string has no members, although it is a Sequence
+                    raise LookupError(part)
+                if isinstance(document, Sequence):
+                    # Array indexes should be turned into integers
+                    if not _ARRAY_INDEX.match(part):
+                        raise LookupError(part)
+                    part = int(part)
                 document = document[part]
             except (TypeError, LookupError):
                 raise exceptions.RefResolutionError(
